@@ -191,6 +191,10 @@ def prepare_attributes(attrs, dyn_attributes, i18n_attributes,
 
         if index is not None:
             _, text, quote, space, eq, _ = attributes[index]
+            if not quote:
+                # The static attribute was written without quotes (or
+                # without a value); a dynamic value must be quoted.
+                quote = '"'
             add = attributes.__setitem__
         else:
             text = None
